@@ -279,13 +279,14 @@ let oracle_mode () =
   let sizes : (int, (n * n) ref) Hashtbl.t = Hashtbl.create 8 in
   let canvases : (int, canvas) Hashtbl.t = Hashtbl.create 8 in
   let screens : (int, int) Hashtbl.t = Hashtbl.create 8 in
+  let known_last : (int, bool) Hashtbl.t = Hashtbl.create 8 in
   let nfail = ref 0 in
   let flush_case () =
     Hashtbl.iter (fun id l ->
       let h = List.rev !l in
       let beh = Hashtbl.find behs id in
       let ct = !(Hashtbl.find wf id) in
-      List.iter (fun (name, wm, af, v0) ->
+      if ct then List.iter (fun (name, wm, af, v0) ->
         let cfg = { wrap = wm; bce = true; unicode_all = beh.b_unicode_all } in
         let fails = oracle_run cfg beh af ct v0 h in
         List.iter (fun (i, c) ->
@@ -297,7 +298,7 @@ let oracle_mode () =
           Printf.printf "FAIL case=%s term=%d cfg=%s op=%d code=%d\n" !case id name (int_of_n i) (int_of_n c)) fails)
         configs) obs;
     Hashtbl.reset behs; Hashtbl.reset obs; Hashtbl.reset wf; Hashtbl.reset sizes;
-    Hashtbl.reset canvases; Hashtbl.reset screens in
+    Hashtbl.reset canvases; Hashtbl.reset screens; Hashtbl.reset known_last in
   let pending : (int * oop) option ref = ref None in
   let wbytes = ref [] in
   (try while true do
@@ -319,6 +320,14 @@ let oracle_mode () =
                     let sz = Hashtbl.find sizes id in
                     (match o with SetSize s -> sz := s | _ -> ());
                     if not (wf_op_b !sz o) then (Hashtbl.find wf id) := false;
+                    (* write_element used as a bare manipulator before anything
+                       established the rendition is outside every property's
+                       quantifier (they speak of elements and strings streamed
+                       with operator<<) *)
+                    (match o with
+                     | WRaw _ -> if not (Hashtbl.mem known_last id) then (Hashtbl.find wf id) := false
+                     | WElem _ | WStr _ | ODA | Erase _ -> Hashtbl.replace known_last id true
+                     | _ -> ());
                     pending := Some (id, OTerm o)
                 | None -> ())
       | "K" ->
@@ -338,6 +347,7 @@ let oracle_mode () =
                let tid = Hashtbl.find screens id in
                let c = Hashtbl.find canvases (num t) in
                if not (List.for_all wf_elem c.grid) then (Hashtbl.find wf tid) := false;
+               Hashtbl.replace known_last tid true;
                pending := Some (tid, ODraw c)
            | _ -> ())
       | _ -> ()
